@@ -12,8 +12,8 @@ from . import c02_util as U
 from .common import add_failure, bump, new_outcome, unrat
 
 PROP = "C02"
-PROPS_FILES = ["CogentModel/Props/C02.lean", "CogentModel/Props/C02Sites.lean"]
-LEAN_TARGETS = ["CogentModel.Props.C02", "CogentModel.Props.C02Sites"]
+PROPS_FILES = ["CogentModel/Props/C02.lean", "CogentModel/Props/C02Sites.lean", "CogentModel/Props/C02Fixed.lean"]
+LEAN_TARGETS = ["CogentModel.Props.C02", "CogentModel.Props.C02Sites", "CogentModel.Props.C02Fixed"]
 DRIVER = "drv_c02"
 TRUSTED = [
     "hand-written model lean/CogentModel/Model/Prune.lean of the pruning recursion, bin mixture and _indexed column "
@@ -24,8 +24,11 @@ TRUSTED = [
     "IUPAC ambiguity tables written into harness/c02_util.py (independent of cogent3.core.moltype)",
     "scipy.linalg.expm as the independent matrix exponential for P = exp(Qt)",
     "hand-written model lean/CogentModel/Model/PruneSites.lean of SumDefn over loci, PatchSiteDistribution, "
-    "SiteClassTransitionMatrix and the loop of log_dot_reduce (mirrored as written); tied on the real per-bin likelihood "
+    "SiteClassTransitionMatrix and the loop of log_dot_reduce (mirrored as written since fix 6668db777: dot(state_probs, switch_probs); "
+    "STRICT about the orientation); tied on the real per-bin likelihood "
     "arrays / root index / PatchSiteDistribution attributes of sites_independent=False likelihood functions",
+    "hand-written model lean/CogentModel/Model/PruneFixed.lean of PartialLikelihoodProductDefnFixedMotif (mask on one internal node "
+    "addressed by its path); tied to every successful reconstruct_ancestral_seqs of the history stream (driver `lfpin`)",
     "the harness's own reading of the site-class HMM definition at the level of the bins (harness/c02_sites.py hmm_definition)",
 ]
 ASSUMPTIONS = [
